@@ -119,11 +119,11 @@ var c18Cont = []world.Op{
 }
 
 // lockstep runs every continuation sequence up to depth on the original and on the re-imported state.
-func c18Lockstep(x *engine.Exec, a, b sdk.Context, depth int, trace string, out *[]engine.Failure, classify func() string) {
+func c18Lockstep(x *engine.Exec, a, b sdk.Context, depth int, trace string, out *[]engine.Failure, classify func(string) string) {
 	c18LockstepWith(x, c18Cont, a, b, depth, trace, out, classify)
 }
 
-func c18LockstepWith(x *engine.Exec, alphabet []world.Op, a, b sdk.Context, depth int, trace string, out *[]engine.Failure, classify func() string) {
+func c18LockstepWith(x *engine.Exec, alphabet []world.Op, a, b sdk.Context, depth int, trace string, out *[]engine.Failure, classify func(string) string) {
 	w := x.W
 	for _, op := range alphabet {
 		if op.K == world.KReward && trace != "" && !strings.HasSuffix(trace, "s) ;") {
@@ -141,7 +141,7 @@ func c18LockstepWith(x *engine.Exec, alphabet []world.Op, a, b sdk.Context, dept
 		}
 		t := trace + " " + op.String() + " ;"
 		if ea != eb {
-			*out = append(*out, fail("lockstep-result", classify(), "after re-import, continuation [%s] returns %q on the original and %q on the imported state", t, ea, eb))
+			*out = append(*out, fail("lockstep-result", classify(t), "after re-import, continuation [%s] returns %q on the original and %q on the imported state", t, ea, eb))
 			continue
 		}
 		// fast path: if bank/staking/distribution and the alliance store (minus the rebalance flag 0x13 and the rebuilt
@@ -158,11 +158,11 @@ func c18LockstepWith(x *engine.Exec, alphabet []world.Op, a, b sdk.Context, dept
 		oa, xa := c18Observe(w, ra.Ctx)
 		ob, xb := c18Observe(w, rb.Ctx)
 		if oa != ob {
-			*out = append(*out, fail("lockstep-observables", classify(), "after re-import, continuation [%s] leads to different observables:\n      original: %s\n      imported: %s", t, oa, ob))
+			*out = append(*out, fail("lockstep-observables", classify(t), "after re-import, continuation [%s] leads to different observables:\n      original: %s\n      imported: %s", t, oa, ob))
 			continue
 		}
 		if !bytes.Equal(xa, xb) {
-			*out = append(*out, fail("lockstep-export", classify(), "after re-import, continuation [%s] leads to different exported state", t))
+			*out = append(*out, fail("lockstep-export", classify(t), "after re-import, continuation [%s] leads to different exported state", t))
 			continue
 		}
 		if depth > 1 && !ra.Rejected {
@@ -201,13 +201,22 @@ func c18Step(depth int, alphabet []world.Op) func(x *engine.Exec) []engine.Failu
 				break
 			}
 		}
-		classify := func() string {
-			// merged redelegation record: more index keys than primary records
-			if len(s.RedelIdx) > len(s.Redels) {
-				return "redelegation-record-merged-sources"
+		// K1: a merged redelegation record is exported with its first source only, the source index of the other sources
+		// is lost by the import; the ONLY way this can show is a slash of such a lost source while the record is pending.
+		// A divergence is attributed to it only if the failing continuation contains exactly such a slash.
+		lost := map[int]bool{}
+		for _, ix := range s.RedelIdx {
+			for _, r := range s.Redels {
+				if r.D == ix.D && r.Denom == ix.Denom && r.Dst == ix.Dst && r.Completion.Equal(ix.Completion) && r.Src != ix.Src {
+					lost[ix.Src] = true
+				}
 			}
-			if s.Flag {
-				return "rebalance-flag-not-exported"
+		}
+		classify := func(trace string) string {
+			for v := range lost {
+				if strings.Contains(trace, fmt.Sprintf("slash(v%d,", v)) {
+					return "redelegation-record-merged-sources"
+				}
 			}
 			return ""
 		}
@@ -217,7 +226,7 @@ func c18Step(depth int, alphabet []world.Op) func(x *engine.Exec) []engine.Failu
 			return []engine.Failure{fail("import", "", "%v", err)}
 		}
 		if second := exportBytes(w, imp); !bytes.Equal(first, second) {
-			out = append(out, fail("second-export", classify(), "exporting the re-imported state does not reproduce the first export (%d vs %d bytes)", len(first), len(second)))
+			out = append(out, fail("second-export", classify(""), "exporting the re-imported state does not reproduce the first export (%d vs %d bytes)", len(first), len(second)))
 		}
 		c18LockstepWith(x, alphabet, x.Next.Ctx, imp, depth, "", &out, classify)
 		// keep one failure per oracle/cause
